@@ -262,8 +262,9 @@ class Shape:
             self.invalid = "no input besides library arguments"
         if sum(1 for k in self.kinds if k in STDIN_KINDS) > 1:
             self.invalid = "standard input named twice"
-        if len(set(self.inputs) - {"-lm"}) < len([a for a in self.inputs if a != "-lm"]):
-            self.invalid = "the same input named twice"
+        files = [p for p in self.in_files if p is not None]
+        if len(set(files)) < len(files):
+            self.invalid = "the same input file named twice"        # ('same.c ./same.c' too)
 
     def _cwd(self, rel):
         """path relative to the cwd -> relative to the tree root"""
